@@ -12,7 +12,7 @@ from harness import election as E
 def client_runs(run, n, props):
     rng = run.rng
     for k_ in range(n):
-        dist = k_ >= 3 and rng.random() < 0.35
+        dist = k_ == 3 or (k_ > 3 and rng.random() < 0.35)
         e = E.gen_election(rng, size=rng.choice(["small", "medium"]),
                            roles=["reporting"] * 6 + ["partial"] * 3 + ["zero-percent", "blocklisted", "no-expected-vote"],
                            min_reporting=14, district=dist, many_districts=dist and rng.random() < 0.7, unexpected=not dist)
@@ -88,7 +88,12 @@ def client_runs(run, n, props):
         alphas = rng.sample([0.5, 0.75, 0.9], 2)
         aggs = rng.choice([["postal_code", "unit"], ["postal_code", "county_fips", "unit"], ["county_fips", "postal_code"]])
         if dist:
-            aggs = rng.choice([["district", "unit"], ["district", "county_fips", "unit"], ["postal_code", "district"]])
+            aggs = rng.choice([["district", "unit"], ["district", "county_fips", "unit"], ["postal_code", "district"], ["postal_code", "district", "unit"],
+                               ["district", "postal_code"]])
+        if dist and k_ == 3:
+            aggs = ["postal_code", "district", "unit"]     # both contest-level tables in the first district election of a pass
+            if mode in ("none", "invalid"):
+                mode, lhs, rhs, stop = "mixed", [contests[0]], [contests[-1]] if len(contests) > 1 else [], [contests[len(contests) // 2]]
         B = rng.choice([4, 8, 16])
         bound = rng.choice([{}, {}, {"percent_expected_vote_error_bound": 0.1}, {"percent_expected_vote_error_bound": 0.6},
                             {"percent_expected_vote_error_bound": 0.75}])
@@ -125,8 +130,9 @@ def client_runs(run, n, props):
                                   signature=f"{p}:api-raise", election=e.to_json())
             continue
         t = res["tables"]
-        sd = t["district_data"] if (dist and "district_data" in t) else t["state_data"]
-        for r in sd.to_dict(orient="records"):
+        # in a district election the state table carries the district key as well: both are tables of the contests
+        contest_tables = [t[n] for n in (("district_data", "state_data") if dist else ("state_data",)) if n in t]
+        for r in [r_ for df_ in contest_tables for r_ in df_.to_dict(orient="records")]:
             c = f"{r['postal_code']}_{r['district']}" if dist else r["postal_code"]
             called = "lhs" if c in lhs else "rhs" if c in rhs else "none"
             stopped = c in stop
